@@ -123,6 +123,65 @@ func fpRun(args []string) error {
 	for e := range errs {
 		return e
 	}
+	// concurrent callers on ONE shared SSA program: GenerateFingerprint for every function of a file
+	// (function literals and the functions that enclose them included) from goroutines released
+	// together, each trial under a policy value never used before (no warmed per-policy state),
+	// compared with a sequential pass under the same policy afterwards.
+	for fi, f := range plan.Files {
+		src, err := os.ReadFile(f.Path)
+		if err != nil {
+			return err
+		}
+		base, err := diff.FingerprintSource(f.Path, string(src), ir.DefaultLiteralPolicy)
+		if err != nil {
+			return err
+		}
+		for trial := 0; trial < plan.Rounds*3; trial++ {
+			pol := ir.DefaultLiteralPolicy
+			pol.SmallIntMax = 16 + int64(trial) + 100*int64(fi) + 10000*(plan.Seed%7)
+			polName := fmt.Sprintf("default+max%d", pol.SmallIntMax)
+			digest := func(rs []diff.FingerprintResult) string {
+				lines := make([]string, 0, len(rs))
+				for _, r := range rs {
+					lines = append(lines, r.FunctionName+"\x00"+r.Fingerprint+"\x00"+r.CanonicalIR)
+				}
+				sort.Strings(lines)
+				h := sha256.Sum256([]byte(strings.Join(lines, "\x01")))
+				return hex.EncodeToString(h[:10])
+			}
+			conc := make([]diff.FingerprintResult, len(base))
+			start := make(chan struct{})
+			var wg2 sync.WaitGroup
+			for i := range base {
+				fn := base[i].GetSSAFunction()
+				if fn == nil {
+					continue
+				}
+				wg2.Add(1)
+				go func(i int) {
+					defer wg2.Done()
+					<-start
+					conc[i] = diff.GenerateFingerprint(fn, pol, false)
+				}(i)
+			}
+			close(start)
+			wg2.Wait()
+			seq := make([]diff.FingerprintResult, 0, len(base))
+			for i := range base {
+				if fn := base[i].GetSSAFunction(); fn != nil {
+					seq = append(seq, diff.GenerateFingerprint(fn, pol, false))
+				}
+			}
+			var concOK []diff.FingerprintResult
+			for i := range base {
+				if base[i].GetSSAFunction() != nil {
+					concOK = append(concOK, conc[i])
+				}
+			}
+			emit(polName, f.ID, fmt.Sprintf("shared-program concurrent#%d", trial), digest(concOK), len(concOK))
+			emit(polName, f.ID, fmt.Sprintf("shared-program sequential#%d", trial), digest(seq), len(seq))
+		}
+	}
 	return tw.close()
 }
 
